@@ -495,7 +495,8 @@ def end_to_end(ctx, fixup, FUNCS):
                     gm = run_impl(comp.evaluate, member)
                     ctx.count(('e2e-member', formula, repr(a), repr(b), ref, i, j), kind='e2e:member')
                     wm = canon(want[i][j])
-                    if gm != ('ok', 0 if wm is None else wm):
+                    # a blank element (IF picking an empty cell) is shown as blank or as 0
+                    if gm != ('ok', wm) and not (wm is None and gm == ('ok', 0)):
                         ctx.violation(dict(case, member=member), "member cell does not show its own element",
                                       impl=gm, expected=wm)
     # the same end-to-end values from the models: fit_to_range (h, w) (op_fixup a o b)
